@@ -18,7 +18,7 @@ def _libs():
         import codec_check
         IC, CC = impl_codec, codec_check
 
-LEAN_MODULES = ["KmipModel.Props.C01", "KmipModel.Props.C01Schema"]
+LEAN_MODULES = ["KmipModel.Props.C01", "KmipModel.Props.C01Schema", "KmipModel.Props.C01Gen"]
 RULE = ("primitives: every primitive class on boundary pools (length mod 8 in 0..7; +-2^7..2^64 +-{0,1,2}; "
         "+-2^(64k), +-2^(64k-1), k<=4, +-{0,1,2}; 0/False/empty; non-ASCII text; own enum class at Enumeration.MIN/MAX) "
         "under rotating tags: constructor verdict, write verdict and bytes compared with the Lean model M2, round trip "
@@ -47,7 +47,9 @@ RULE = ("primitives: every primitive class on boundary pools (length mod 8 in 0.
         "nested class's own codec keeps under v.  Schema layer "
         "(M3): for every class of the Lean schema table, real encodings and their child-level neighbours (child "
         "dropped / duplicated / moved / re-typed within a layout-compatible type / a foreign primitive child inserted) "
-        "are given to the class's reader and to Lean decodeS: same accept/reject and same re-encode stability.  "
+        "are given to the class's reader and to Lean decodeS: same accept/reject and same re-encode stability; the same "
+        "for every class of the GENERATED schema tables (translator over read()/write(), ~94 classes), whose read and "
+        "write tables must agree (gen_read_write_agree) apart from the listed, witnessed differences.  "
         "distinct_nontrivial = distinct (class, version, presence mask of fields, length mod 8) that encoded, plus "
         "distinct (primitive class, value) that encoded, plus distinct accepted mutated byte strings.")
 ASSUMPTIONS = [
@@ -59,9 +61,12 @@ ASSUMPTIONS = [
     "leaves named batch_count / major / minor / attribute_name are not replaced (they select classes or counts "
     "elsewhere in the same value)",
 ]
-TRUSTED = ["M3 schema table (KmipModel/Schemas.lean) covers the message envelope and the payloads of Activate, Destroy, "
-           "Revoke, MAC, DiscoverVersions; it is tied to the readers of /repo by acceptance of child-level neighbours "
-           "of real encodings.  The other Struct classes are checked on the implementation only (monitors)."]
+TRUSTED = ["M3 schema tables: (a) 32 hand-written schemas (KmipModel/Schemas.lean), (b) GENERATED on every run by the "
+           "translator harness/gen_schemas.py from the read() and write() methods of every Struct class of /repo (two "
+           "independent field tables per class: KmipModel/Gen/SchemasGen.lean); the translator's classification of "
+           "statement forms and its live-class tag/kind oracle are trusted and cross-checked by the acceptance of "
+           "child-level neighbours of real encodings; classes it does not recognise are listed in the evidence "
+           "(schema_gen_unrecognised) and checked on the implementation only (monitors)."]
 
 
 def classify_unencodable(kind, val):
@@ -290,6 +295,14 @@ def run(ctx):
     t2 = time.time()
     n_schema = schema_phase(ctx, run_, rng, cov)
     cov["schema_wall_s"] = round(time.time() - t2, 1)
+    # the GENERATED schema tables (translator harness/gen_schemas.py): child-level neighbours of real encodings of
+    # every translated class through the real reader and through decodeS of the generated schema
+    t3 = time.time()
+    import schema_gen_check as SG
+    sg = SG.run(ctx, run_, rng)
+    cov.update(sg)
+    n_schema += sg.get("schema_gen_cases", 0)
+    cov["schema_gen_wall_s"] = round(time.time() - t3, 1)
     ctx.notes += sorted(cov.pop("notes"))
     ctx.coverage.update(cov)
     ctx.coverage["evaluations"] = cov["prim_values"] + cov["prim_decodes"] + run_.evaluations + n_schema
@@ -333,6 +346,11 @@ def search(ctx, broken):
     run_ = CC.StructRun(ctx.seed + 1, ctx.tier).run()
     for f in run_.findings:
         ctx.report(f.signature, f.what, f.replay)
+    try:
+        import schema_gen_check as SG
+        SG.search(ctx, run_, rng)
+    except Exception as e:      # the generated tables may be what broke: the search must not die with them
+        ctx.notes.append("schema_gen_check.search: %s: %s" % (type(e).__name__, str(e)[:200]))
     ctx.coverage["evaluations"] = run_.evaluations
     ctx.coverage["distinct_nontrivial"] = len(run_.distinct)
 
@@ -383,6 +401,9 @@ def replay(ctx, rep):
         faults = CC.prim_ded_faults(kind, ec, IC.enums.Tags(r["tag"]), o)
         print("\n".join(faults))
         return not faults
+    if r.get("kind") in ("witness", "struct-bytes"):
+        import schema_gen_check as SG
+        return SG.replay(r)
     if r.get("kind") == "traffic":
         if "hex" in r and "version" in r:
             c = IC.messages.ResponseMessage if r.get("which") == "response" else IC.messages.RequestMessage
